@@ -42,7 +42,7 @@ META = dict(
     assumptions=["generated scripts are well-sorted SMT-LIB with all declarations first; names are never reused while live"],
     rule="lib/scriptgen_cores.py histories: contradiction kits + redundancy + noise over named/unnamed assertions, push/pop, names popped and "
          "reused for other terms, the same term named at two levels or asserted named and unnamed, :named inside larger assertions, "
-         "get-unsat-core twice, repeated check-sat, :minimal-unsat-cores and :print-cores-full on/off incl. toggles in mid-script; "
+         "directed histories (one term under several names of different lifetime; conjunctions re-asserted after pop in other shapes; assertions added after an unsat answer), get-unsat-core twice, repeated check-sat, :minimal-unsat-cores and :print-cores-full on/off incl. toggles in mid-script; "
          "QF_UF / QF_LRA / QF_LIA / propositional; case = one (get-unsat-core) answer after unsat; non-trivial = >= 2 current assertions "
          "and a non-empty answer; distinct = (script, query index)",
 )
